@@ -77,9 +77,9 @@ def parse_res(line):
 
 
 def hc_oracle(op, line, opl, violation, outcomes, feats, distinct):
-    """stateful response cache (deepening round): invariants proved of the model (rcache_invariant, rcache_hit_sound),
-    evaluated on the REAL cache's dumped state after every step"""
-    if not line.startswith("hc "):
+    """stateful response cache (deepening round): the invariants proved of the model (rcache_invariant, rcache_hit_sound,
+    rcache_hit_not_expired), evaluated on the REAL cache's dumped state after every step"""
+    if not line.startswith("hc ") or line == "hc skipped-after-hang":
         return
     outs = line[3:].split(";")
     ents, nid, linked = {}, 0, False
@@ -88,40 +88,48 @@ def hc_oracle(op, line, opl, violation, outcomes, feats, distinct):
     for st, o in zip(op["steps"], outs):
         head, _, dump = o.partition(" ")
         outcomes["hc " + re.sub(r"\d+", "", head)] += 1
+        k, now = st["k"], st.get("now", 0)
+        if head.endswith(":hang"):
+            violation("cache-call-does-not-return", f"cache of {op['max']} bytes: {k} {st.get('us', '')} (body of {st.get('sz') or (st.get('ans') or {}).get('sz')} bytes) did not return: the make-room loop of insert spins with the cache's mutex held", opl)
         if not dump:
             break      # hang / bad step: the case ends here
-        k, now = st["k"], st.get("now", 0)
         rq = st.get("u", {}).get("query", "")
         if k in ("ins", "lnk"):
             ents[nid] = (st.get("us"), st.get("m"), rq, st.get("sz", 0), st.get("exp", 0), k)
             nid += 1
             linked = linked or k == "lnk"
         elif k == "rt" and head.startswith("rt:net") and st.get("m") == "GET" and (st.get("ans") or {}).get("ca") is not None:
-            ents[nid] = (st.get("us"), "GET", rq, st["ans"]["sz"], st["ans"]["ca"], "rt")
+            ents[nid] = (st.get("us"), "GET", rq, st["ans"]["sz"], min(st["ans"]["ca"], now + 60000), "rt")   # maxCacheTime = 1 h
             nid += 1
         size_s, lst_s, map_s = dump.split("/")
         size = int(size_s)
         lst = [(int(x.split("@")[0]), int(x.split("@")[1])) for x in lst_s.split(".") if x]
         mp = [int(x.split(":")[0]) for x in map_s.split(".") if x]
         what = f"cache of {op['max']} bytes after step {k} {st.get('us', '')}: {o}"
+        unk = (None, None, None, 0, 0, "?")
         mh = re.match(r"(get|rt):hit(-?\d+)", head)
         if mh:
             e = ents.get(int(mh.group(2)))
             if e is None or (e[0], e[1], e[2]) != (st.get("us"), st.get("m"), rq):
                 violation("cache-hit-for-other-request", f"the cache answered {st.get('m')} {st.get('us')} with the entry stored for {e and e[:3]}; " + what, opl)
+            elif e[4] < now:
+                violation("cache-expired-entry-served", f"the entry expired at {e[4]} (1/1000 min), the lookup was at {now}; " + what, opl)
             if k == "rt" and st.get("m") != "GET":
                 violation("cache-served-non-get", what, opl)
         if head == "rt:net:true" and (st.get("m") != "GET" or (st.get("ans") or {}).get("ca") is None):
             violation("cache-stored-uncacheable-response", what, opl)
         if any(i not in ents for i in mp) or size != sum(ents[i][3] for i in mp if i in ents):
             violation("cache-size-accounting", "currentSizeBytes differs from the bytes held in entriesByURL; " + what, opl)
-        if mp and size >= op["max"] and not linked:
-            violation("cache-over-capacity", "the cache holds as many bytes as its limit or more; " + what, opl)
-        if any(i not in mp for i, _ in lst):
-            violation("cache-listed-entry-not-indexed", what, opl)
-        if (k == "get" or (k == "rt" and st.get("m") == "GET")) and any(ents.get(i, (0, 0, 0, 0, 0))[4] < now for i, _ in lst):
+        if mp and size > op["max"] and not linked:
+            violation("cache-over-capacity", "the cache holds more bytes than its limit; " + what, opl)
+        if sorted(i for i, _ in lst) != sorted(mp):
+            violation("cache-index-and-expiry-list-differ", "an entry is indexed but cannot be reached by expiry / eviction (or the reverse); " + what, opl)
+        exps = [ents.get(i, unk)[4] for i, _ in lst]
+        if any(a > b for a, b in zip(exps, exps[1:])):
+            violation("cache-expiry-list-unordered", what, opl)
+        if (k == "get" or (k == "rt" and st.get("m") == "GET")) and any(x < now for x in exps):
             violation("cache-expired-entry-kept-after-prune", "an entry of the expiry list that has expired survived the prune of a lookup; " + what, opl)
-        if any(ents.get(i, (0,) * 6)[5] == "rt" and mins > 60 for i, mins in lst):
+        if any(ents.get(i, unk)[5] == "rt" and mins > 60 for i, mins in lst):
             violation("cache-ttl-above-cap", "a response is kept longer than maxCacheTime; " + what, opl)
 
 
@@ -130,7 +138,7 @@ def run(ctx):
     thms = ctx.build_and_audit(["NutsProofs.Props.C18"])
     required = ["did_url_roundtrip", "fetch_origin_bound", "redirects_stay_on_origin", "strict_client_https_only",
                 "redirect_witness", "id_bound_web", "id_bound", "jwk_key_pure", "local_first_no_network",
-                "deactivated_needs_flag", "local_store_fault_no_network", "fact_local_resolver_errors", "fact_local_time_bound", "fact_cache_index", "fact_cache_flow", "rcache_invariant", "rcache_hit_sound", "rcache_hit_same_url", "fact_local_lookup_query", "local_lookup_exact", "local_lookup_ignores_other_dids", "local_sql_refines", "local_resolution_independent_of_other_dids", "cache_key_injective", "cache_no_foreign_entry", "fact_sets", "fact_content_types", "fact_redirect_policy", "fact_router",
+                "deactivated_needs_flag", "local_store_fault_no_network", "fact_local_resolver_errors", "fact_local_time_bound", "fact_cache_index", "fact_cache_flow", "rcache_invariant", "rcache_hit_sound", "rcache_hit_same_url", "rcache_hit_not_expired", "old_cache_defect_witness", "fact_local_lookup_query", "local_lookup_exact", "local_lookup_ignores_other_dids", "local_sql_refines", "local_resolution_independent_of_other_dids", "cache_key_injective", "cache_no_foreign_entry", "fact_sets", "fact_content_types", "fact_redirect_policy", "fact_router",
                 "fact_deactivation", "fact_resolve_checks_document_id", "fact_strict_do"]
     for r in required:
         if not any(t.endswith("Props." + r) for t in thms):
